@@ -3,10 +3,11 @@
 Copies a confirmed seeded change into /verif/seeded/<prop>-<idx>/ with meta.json."""
 import json, os, shutil, sys
 prop, wt, idx, det, by = sys.argv[1:6]
+didx = sys.argv[6] if len(sys.argv) > 6 else idx   # destination index (later rounds)
 src = os.path.join(wt, 'MUTATION')
 meta = json.load(open(os.path.join(src, 'meta.json')))
 ch = meta['changes'][int(idx) - 1]
-dst = os.path.join('/verif/seeded', '%s-%s' % (prop, idx))
+dst = os.path.join('/verif/seeded', '%s-%s' % (prop, didx))
 os.makedirs(dst, exist_ok=True)
 shutil.copy(os.path.join(src, ch['patch']), os.path.join(dst, 'patch.diff'))
 shutil.copy(os.path.join(src, ch['demo']), os.path.join(dst, 'demo.rs'))
@@ -15,7 +16,7 @@ json.dump({
     'origin': 'independent sub-agent given only the property text and a scratch worktree',
     'confirmed_by_me': {'how': 'tools/confirm_seeded.sh in the scratch worktree: patch applies; cargo test --workspace --no-fail-fast --offline passes with the change; demo (copied to tests/) fails with the change and passes without',
                         'existing_tests_pass': True, 'demo_fails_with_change': True, 'demo_passes_without': True},
-    'check': {'command': 'tools/try_seeded.sh %s seeded/%s-%s/patch.diff  (git -C /repo apply; ./check %s; git -C /repo checkout -- .)' % (prop, prop, idx, prop),
+    'check': {'command': 'tools/try_seeded.sh %s seeded/%s-%s/patch.diff  (git -C /repo apply; ./check %s; git -C /repo checkout -- .)' % (prop, prop, didx, prop),
               'detected': det, 'by': by},
 }, open(os.path.join(dst, 'meta.json'), 'w'), indent=1)
 print('kept', dst)
